@@ -226,7 +226,8 @@ const TOKENS: &[&str] = &[
     "$", "@", ".", ":", "*", ".*", "[", "]", "[*]", "(", ")", "?", "?(", ",", "\"", "\\", "\\u", "\\u{", "}", "{", "0", "1", "-1", "2147483647",
     "2147483648", "last", "LAST", "to", " to ", "+", "-", "==", "!=", "<>", "<", "<=", ">", ">=", "&&", "||", "exists", "exists(", "null",
     "true", "false", "1.5", "1e5", ".5", "\"a\"", "\"\"", "a", "key", "测", " ", "\t", "\n", "'", "\"abc", "\\\"", "D83D", "\\uD83D\\uDC8E", "%", "/",
-    "nan", "inf", "last+-2147483648", "last - -1", "[last+-2147483648]", "+5",
+    "nan", "inf", "last+-2147483648", "last - -1", "[last+-2147483648]", "+5", "-2147483648", "last - -2147483648", "[last - -2147483648]",
+    "[-2147483648 to last]", "last-2147483647", "last+2147483647",
 ];
 
 pub fn check_raw(b: &Bytes, obs: &mut Obs) -> Result<(), String> {
